@@ -137,7 +137,8 @@ class Ctx:
         self.dens = []
         self.den_idx = {}
         self.nfresh = 0
-        self.wangles = []      # (Q angle value, w symbol, chart)
+        self.wangles = []      # (Q angle value, w symbol)
+        self.wchart = {}       # id of w symbol -> 2 for the cotangent chart w = cot(a/2)
         self.sqrt_hints = []
         self.obligations = []
         self.events = []       # recorder for shims (warnings, prints)
@@ -642,6 +643,8 @@ class S:
         """tan(a/2) as a rational expression in Weierstrass symbols"""
         kind, w = s._w()
         W = S(Q(w))
+        if CTX.wchart.get(w.get_id()) == 2:
+            raise NotImplementedError("tan(a/2) on the cotangent chart")
         if kind in ("w", "same"):
             return W
         if kind == "neg":
@@ -651,8 +654,17 @@ class S:
         raise NotImplementedError("sin/cos of a half angle")
 
     def _sincos(s):
-        W = s._W()
+        kind, w = s._w()
         one = S(1)
+        if CTX.wchart.get(w.get_id()) == 2:
+            # cotangent chart: w = cot(a/2); covers a = pi (w = 0), misses a = 0
+            if kind not in ("w", "same", "neg"):
+                raise NotImplementedError("half/double angle on the cotangent chart")
+            W = S(Q(w))
+            den = one + W * W
+            si, co = (2 * W) / den, (W * W - one) / den
+            return (-si if kind == "neg" else si), co, None
+        W = s._W()
         den = one + W * W
         return (2 * W) / den, (one - W * W) / den, W
 
@@ -678,6 +690,14 @@ class S:
         si, co, W = s._sincos()
         t = S(si.v) / S(co.v)
         return S(t.v, qmul(qadd(QONE, qmul(t.v, t.v)), s.d))
+
+
+def register_angle(a, chart=1):
+    """register the angle term a (an S) with a fresh Weierstrass symbol on the given chart; returns the symbol"""
+    kind, w = a._w()
+    if chart == 2:
+        CTX.wchart[w.get_id()] = 2
+    return w
 
 
 def _same(l, r):
@@ -791,8 +811,13 @@ def explore(fn, max_paths=256, max_depth=64):
             item["result"] = fn()
             stats["paths"] += 1
         except Infeasible:
+            # the path condition became unsatisfiable mid-run (e.g. a denominator that vanishes on this
+            # path was registered): obligations stated before that point are still handed to the consumer
             stats["infeasible"] += 1
             pending.extend(CTX.pending)
+            item["partial"] = True
+            item["stats"] = stats
+            yield item
             continue
         except PathCut:
             stats["cut"] += 1
